@@ -43,7 +43,7 @@ class C07(Engine):
     prop = "C07"
     name = "read-fault-sim+conservation-monitor"
     level = "fault_enumeration"
-    expected_kinds = {"fault_free", "garbage_nl_kept", "garbage_nl_lost", "lost_final_newline", "multi_file_garbage", "stray_eol", "lexical_garbage"}
+    expected_kinds = {"fault_free", "garbage_nl_kept", "garbage_nl_lost", "lost_final_newline", "multi_file_garbage", "stray_eol", "lexical_garbage", "structure_variant"}
     rule_text = ("Fault-free: every workload file at API level with the conservation monitor (I1 for all; I2/I3 for the conforming "
                  "family - generated programs whatever their verdict, hand-written specials and repository samples the tool finds clean; "
                  "statement count and depth-by-construction for generated programs, statement count for count-preserving violations and "
@@ -95,6 +95,22 @@ class C07(Engine):
                                     "ops": [{"op": "api", "file": "x"}]}
                         idx += 1
                 off = end + 1
+        # A3. structure-preserving variants of every generated .c program whose brace structure stays what the generator emitted:
+        #     control statements (with and without a labelled body) as the last statement of a function, labelled bodies, comment runs
+        from ..workload import gen_violating
+        idx = 700_000
+        for fid in P.groups.get("gen", []):
+            f = P.files[fid]
+            if not f["name"].endswith(".c"):
+                continue
+            for k, fop in enumerate(("label_last", "control_last", "label_body", "comment_run", "label_line")):
+                r = core.derive_rng("c07.struct", self.seed, idx)
+                c2, op = gen_violating(r, f["name"], f["content"], force_op=fop)
+                if c2 != f["content"]:
+                    yield idx, {"kind": "free", "generated": False, "count_known": False, "nstmts": None, "braces_known": True, "fault": "structure_variant",
+                                "files": {"x": {"name": f["name"], "content": c2, "origin": f"{P.meta[fid]['origin']}+{op}"}},
+                                "ops": [{"op": "api", "file": "x"}]}
+                idx += 1
         # B. garbage at every statement boundary (CLI level, default options)
         groups = ("gen", "special_clean", "special_notice", "corpus_headed", "viol", "special_erroneous")
         bases = []
